@@ -116,7 +116,7 @@ def bin_image_clause(model, rep, funcs):
     names = ("s0", "s1", "s2")
     dom = _BinDom(model, integer_syms=set(names) | {"binsize"}, positive_syms=set(names) | {"binsize"})
     it = Interp(model, dom, depth=0)
-    reshapes, sums = [], []
+    reshapes, sums, sum_nodes = [], [], []
 
     def on_call(interp, fn, node, callee, args, kwargs, env):
         if fn is not f or not isinstance(node.func, ast.Attribute):
@@ -125,6 +125,7 @@ def bin_image_clause(model, rep, funcs):
             reshapes.append(args[0] if len(args) == 1 else Tup(list(args)))
         if node.func.attr == "sum":
             sums.append(kwargs.get("axis", args[0] if args else None))
+            sum_nodes.append(node)
 
     it.on_call.append(on_call)
     shp = tuple(dom.sym(x) for x in names)
@@ -149,8 +150,24 @@ def bin_image_clause(model, rep, funcs):
     rep.ob("A", f.anchor, "bin_image drops the incomplete remainder (keeps b*(s//b) voxels) and reshapes every axis to (s//b, b)", ok, det, node=f.node, fn=f,
            clause="block sum", stmt="def bin_image reshape")
     MI = Matcher(f)
-    ok2 = len(sums) == 1 and (MI.has("$$r.sum(axis=tuple($i * 2 + 1 for $i in range(img.ndim)))") or MI.has("$$r.sum(axis=tuple(2 * $i + 1 for $i in range(img.ndim)))") or
-                              MI.has("$$r.sum(axis=(1, 3, 5))"))
+    # the reduced axes, evaluated on constants for 3-D and 2-D images (sa/domains/consts.py): (1, 3, 5) / (1, 3) however the tuple is spelled
+    from ..domains.consts import ConstDomain
+    ok2 = len(sums) == 1
+    if ok2:
+        axn = kwarg(sum_nodes[0], "axis") or (sum_nodes[0].args[0] if sum_nodes[0].args else None)
+        # a plain sum: no accumulator dtype, no initial value, no mask (sum(dtype=img.dtype) overflows on integer tomograms)
+        ok2 = axn is not None and {k.arg for k in sum_nodes[0].keywords} <= {"axis"} and len(sum_nodes[0].args) <= 1
+        for nd, want in ((3, (1, 3, 5)), (2, (1, 3))):
+            if not ok2:
+                break
+            ax_e = axn
+            if isinstance(ax_e, ast.Name):  # the defining expression as written (the matcher's expanded form rewrites comprehension variables)
+                defs_ = [s_.value for s_ in walk_no_nested(f.node) if isinstance(s_, ast.Assign) and len(s_.targets) == 1 and isinstance(s_.targets[0], ast.Name)
+                         and s_.targets[0].id == ax_e.id]
+                ax_e = defs_[0] if len(defs_) == 1 else ax_e
+            v = Interp(model, ConstDomain(attr_values={"ndim": nd}), depth=0).eval(ax_e, {}, f)
+            got = tuple(x.value for x in v.items) if isinstance(v, Tup) and all(isinstance(x, Const) for x in v.items) else None
+            ok2 = got == want
     rets_bi = [r for r in walk_no_nested(f.node) if isinstance(r, ast.Return)]
     if len(rets_bi) != 1:
         ok2 = False
